@@ -30,7 +30,13 @@
       case Instruction::Add: return fromExpr(x + y); case Instruction::Sub: return fromExpr(x - y); case Instruction::Mul: return fromExpr(x * y);
       case Instruction::UDiv: case Instruction::SDiv: case Instruction::URem: case Instruction::SRem: {
         if (b.sym) { z3::expr z = (y == bvc(0, b.w)); if (feasible(*curSt, z)) { violation(*curSt, "ub", "integer division by zero", &z); curSt->pc.push_back(!z); if (!feasible(*curSt, Z->bool_val(true))) throw PathEnd{}; } }
-        return fromExpr(op == Instruction::UDiv ? z3::udiv(x, y) : op == Instruction::SDiv ? x / y : op == Instruction::URem ? z3::urem(x, y) : z3::srem(x, y)); }
+        z3::expr rr = op == Instruction::UDiv ? z3::udiv(x, y) : op == Instruction::SDiv ? x / y : op == Instruction::URem ? z3::urem(x, y) : z3::srem(x, y);
+        // valid range lemmas for division by a non-zero constant (tautologies; they spare the solver from deriving them through the bit-blasted divider)
+        if (!b.sym && !b.c.isZero() && curSt) { unsigned W = b.w; z3::expr zero = bvc(0, W);
+          if (op == Instruction::URem) curSt->pc.push_back(z3::ult(rr, y) && z3::implies(z3::ult(x, y), rr == x));
+          else if (op == Instruction::UDiv) curSt->pc.push_back(z3::ule(rr, toExpr(Val::concAP(APInt::getMaxValue(W).udiv(b.c)))));
+          else if (op == Instruction::SRem && b.c.isStrictlyPositive()) curSt->pc.push_back(rr < y && rr > -y && z3::implies(x >= zero, rr >= zero) && z3::implies(x <= zero, rr <= zero) && z3::implies(x < y && x > -y, rr == x)); }
+        return fromExpr(rr); }
       case Instruction::And: return fromExpr(x & y); case Instruction::Or: return fromExpr(x | y); case Instruction::Xor: return fromExpr(x ^ y);
       case Instruction::Shl: return fromExpr(z3::shl(x, y)); case Instruction::LShr: return fromExpr(z3::lshr(x, y)); case Instruction::AShr: return fromExpr(z3::ashr(x, y));
     }
